@@ -74,9 +74,12 @@ def nonexo(block):
     return ex
 
 
-def solve(text, red, cap, trace=None):
+def solve(text, red, cap, trace=None, steady=False):
     s = EquationSolver(text, run_equation_reduction=red)
     s.MaxIterations = cap
+    if steady:
+        s.ParameterSolveInitialSteadyState = True
+        s.ParameterInitialSteadyStateMaxTime = 40
     if trace is not None:
         s.TraceStep = trace
     err = None
@@ -89,12 +92,12 @@ def solve(text, red, cap, trace=None):
     return s, err
 
 
-def check_failure(label, block, expect, s_period, red, tol, cap):
-    case = {'part': 'a', 'family': label, 's': s_period, 'reduction': red, 'tol': tol, 'cap': cap}
+def check_failure(label, block, expect, s_period, red, tol, cap, steady=False):
+    case = {'part': 'a', 'family': label, 's': s_period, 'reduction': red, 'tol': tol, 'cap': cap, 'steady': steady}
     blk = Block.from_json(block.as_json())
     blk.tol = tol
     text = blk.text()
-    sol, err = solve(text, red, cap)
+    sol, err = solve(text, red, cap, steady=steady)
     if err == 'HANG':
         return 'hang', [core.violation('unbounded-work', 'solve did not stop within 30 s (cap %d)' % cap, case)], False
     if err is None:
@@ -125,7 +128,7 @@ def check_failure(label, block, expect, s_period, red, tol, cap):
     if L > 1:
         ref_blk = Block.from_json(blk.as_json())
         ref_blk.maxtime = L - 1
-        ref, rerr = solve(ref_blk.text(), red, cap)
+        ref, rerr = solve(ref_blk.text(), red, cap, steady=steady)
         if rerr is not None:
             viols.append(core.violation('prefix-not-reproducible', 'periods 1..%d were reported solved but solving them alone fails: %r' % (L - 1, rerr), case))
         else:
@@ -134,7 +137,7 @@ def check_failure(label, block, expect, s_period, red, tol, cap):
                     viols.append(core.violation('prefix-corrupted', '%s after failure %r, solved alone %r' % (v, sol.TimeSeries[v], ref.TimeSeries[v]), case))
                     break
     # bounded work: trace the failing period
-    tr, terr = solve(text, red, cap, trace=L)
+    tr, terr = solve(text, red, cap, trace=L, steady=steady)
     if terr == 'HANG':
         viols.append(core.violation('unbounded-work', 'traced solve did not stop within 30 s', case))
     else:
@@ -357,6 +360,17 @@ def run_unit(unit, tier):
                         res['nontrivial'] += 1
                     core.bump(res['outcomes'], 'a:%s:%s' % (label, outcome))
                     res['violations'].extend(viols[:2])
+        # configuration: the initial steady-state search (which uses its own, larger iteration budget) runs first
+        if label in ('expansive', 'oscillating', 'div0-core'):
+            for red in (True, False):
+                for cap in (10, 50, 400):
+                    dig.add(('a-steady', label, unit['s'], red, cap))
+                    outcome, viols, hit = check_failure(label, blk, expect, unit['s'], red, '1e-6', cap, steady=True)
+                    res['evaluations'] += 1
+                    if hit:
+                        res['nontrivial'] += 1
+                    core.bump(res['outcomes'], 'a:steady:%s:%s' % (label, outcome))
+                    res['violations'].extend(viols[:2])
         res['samples'] = [{'family': label, 'fails in period': unit['s'], 'block': blk.text()}]
     elif part == 'b':
         n = unit['n']
@@ -435,7 +449,7 @@ def replay(case):
     if part == 'a':
         for label, blk, expect in families(case['s']):
             if label == case['family']:
-                return check_failure(label, blk, expect, case['s'], case['reduction'], case['tol'], case['cap'])[1][:1]
+                return check_failure(label, blk, expect, case['s'], case['reduction'], case['tol'], case['cap'], case.get('steady', False))[1][:1]
     if part == 'b':
         return check_success('affine', affine_text([tuple(r) for r in case['A']], case['b'], case['tol']), case)[:1]
     if part == 'b-structured':
